@@ -164,6 +164,14 @@ Definition inspect (k : mclass) (b : xml) : exn + list str :=
     inr (line "IN STORY: " (ea_target_id t_storyID b) :: lines "  MOVE ITEM: " (ea_first_source_ids t_itemID b))
   end.
 
+(* what inspect() has already printed when it raises (only EAItemSwap prints before the
+   failing tuple unpacking) *)
+Definition inspect_partial (k : mclass) (b : xml) : list str :=
+  match k with
+  | EAItemSwap => [line "IN STORY: " (ea_target_id t_storyID b)]
+  | _ => []
+  end.
+
 (* the source lists whose every ID inspect() must mention *)
 Definition inspect_sources (k : mclass) (b : xml) : list (option str) :=
   let ids tag l := map (elem_id tag) l in
